@@ -30,6 +30,7 @@ import GoZero.C19.Driver
 import GoZero.C19.LinProofs
 import GoZero.C19.Ids
 import GoZero.C19.OutcomeProofs
+import GoZero.C19.CmdTrace
 namespace GoZero.C19
 open Spec
 
@@ -923,5 +924,81 @@ theorem configured_lease_every_setExpire_argument (cfg : Nat → LockCfg) (hd : 
   rw [lease_is_seconds_plus_500ms cfg hd _ i (toUint32 s) h ops hq, hg]
 
 example : toUint32 (-1) = 4294967295 ∧ toUint32 4294967297 = 1 := by decide
+
+/-! ### Round 5c: the command trace of a call -/
+
+/-- **COMMAND TRACE: a call puts its own script on the wire and nothing else.**  For every call (Acquire with any
+loaded `seconds`, Release; any instance) and EVERY environment — per command the environment decides whether
+go-zero's hooks let it pass (a context that is already done and an open breaker are answered by the breaker hook
+without reaching the connection) and what comes back: NOSCRIPT or ANY `Handed` value (any reply, `resp == nil`,
+`red.Nil` bare or wrapped, any other error: connection lost, context cancelled, typed-nil error) — the commands
+attempted are exactly `[EVALSHA own-script]`, or `[EVALSHA own-script, EVAL own-script]` iff the EVALSHA was seen
+answered NOSCRIPT; the result is the decoding of the last answer.  In particular NOTHING is sent on an error
+path (seeded C19-6: a `rl.store.Del` after a failed script run).  `realG` is the interpretation of the table of
+calls the extractor regenerates from redislock.go (`tie_callTable`, `tie_command_trace`). -/
+theorem command_trace_is_the_own_script_only (cfg : Nat → LockCfg) (call : Call) (env : Nat → Wire → Answer) :
+    (gexec env (realG cfg call) 0).1.map (·.1) =
+      (if (env 0 ⟨.evalsha, scriptCmd cfg call⟩).seen = .noscript
+        then [⟨.evalsha, scriptCmd cfg call⟩, ⟨.eval, scriptCmd cfg call⟩] else [⟨.evalsha, scriptCmd cfg call⟩]) ∧
+    (gexec env (realG cfg call) 0).2 =
+      decodeG call (if (env 0 ⟨.evalsha, scriptCmd cfg call⟩).seen = .noscript
+        then (env 1 ⟨.eval, scriptCmd cfg call⟩).seen.toHanded
+        else (env 0 ⟨.evalsha, scriptCmd cfg call⟩).seen.toHanded) := by
+  simp only [realG, scriptRunG, gexec]
+  cases h : (env 0 ⟨.evalsha, scriptCmd cfg call⟩).seen with
+  | noscript => simp [gexec]
+  | handed x => simp [gexec, Got.toHanded]
+
+/-- … so every command of every call, whatever happens, is a run of the call's own script with the instance's key
+and id, there are at most two of them, and no GET / DEL / SET ever appears -/
+theorem every_command_is_the_own_script (cfg : Nat → LockCfg) (call : Call) (env : Nat → Wire → Answer) :
+    (∀ w ∈ (gexec env (realG cfg call) 0).1.map (·.1),
+      w.cmd = scriptCmd cfg call ∧ (w.verb = .evalsha ∨ w.verb = .eval)) ∧
+    ((gexec env (realG cfg call) 0).1.map (·.1)).length ≤ 2 := by
+  rw [(command_trace_is_the_own_script_only cfg call env).1]
+  split <;> simp
+
+/-- **every entry point**: the program of `Acquire()` / `Release()` (the wrappers, helper methods inlined) and of
+`AcquireCtx` / `ReleaseCtx` read off the table of calls is the same `realG` -/
+theorem every_entry_point_runs_realG (cfg : Nat → LockCfg) (call : Call) (wrapper : Bool) :
+    progOfRows realRows wrapper (cfg (callInst call)) call = some (realG cfg call) := by
+  cases call <;> cases wrapper <;> rfl
+
+/-- handed Redis' reply the trace semantics returns what the round-trip semantics of Cmds.lean decodes -/
+theorem realG_decodes_like_the_model (call : Call) (h : Handed) : decodeG call h = handedOf call.op h := by
+  cases call <;> rfl
+
+/-- **witness: the interpretation exhibits a command on an error path** — the table of seeded C19-6 (AcquireCtx
+calls `rl.discard()` on its real-error branch, `discard` does `rl.store.Del(rl.key)`): an Acquire by instance
+"a" whose context dies before its EVALSHA sends a DEL of the key afterwards, through either entry point. -/
+theorem discard_on_the_error_path_sends_a_DEL :
+    ((progOfRows discardRows true ⟨"k", "a"⟩ (.acq 0 0)).map fun p =>
+      (gexec (harnessEnv false false (some 1) .err) p 0).1.map (·.1)) =
+      some [⟨.evalsha, .evalLock "k" "a" 500⟩, ⟨.other "Del", .del "k"⟩] ∧
+    ((progOfRows discardRows false ⟨"k", "a"⟩ (.acq 0 0)).map fun p =>
+      (gexec (harnessEnv true true none .err) p 0).1.map (·.1.verb)) = some [.evalsha, .other "Del"] := by decide
+
+/-- go-zero's breaker hook in front of every command: a context that is already done is answered with its error,
+an open breaker with ErrServiceUnavailable, and in both cases the command does not reach the connection — the
+Go code sees an error that is not NOSCRIPT, so (by `command_trace_is_the_own_script_only`) the call ends there. -/
+theorem breaker_gate_stops_the_call (cfg : Nat → LockCfg) (call : Call) (env : Nat → Wire → Answer)
+    (ctxDone brkOpen : Bool) (hg : (env 0 ⟨.evalsha, scriptCmd cfg call⟩).gate = breakerGate ctxDone brkOpen)
+    (hb : ctxDone = true ∨ brkOpen = true) :
+    (gexec env (realG cfg call) 0).1 = [(⟨.evalsha, scriptCmd cfg call⟩, breakerGate ctxDone brkOpen)] ∧
+    breakerGate ctxDone brkOpen ≠ .pass ∧
+    (gexec env (realG cfg call) 0).2 = (false, true) := by
+  have hne : breakerGate ctxDone brkOpen ≠ .pass := by
+    cases ctxDone <;> cases brkOpen <;> simp [breakerGate] at hb ⊢
+  have hs : (env 0 ⟨.evalsha, scriptCmd cfg call⟩).seen = .handed .err := by
+    unfold Answer.seen; rw [hg]
+    cases hq : breakerGate ctxDone brkOpen <;> simp_all
+  refine ⟨?_, hne, ?_⟩
+  · simp only [realG, scriptRunG, gexec, hs, hg]
+  · rw [(command_trace_is_the_own_script_only cfg call env).2, hs]
+    cases call <;> rfl
+
+example : modelCmds exCfg (.acq 0 0) false false (some 2) .nilNoErr = "evalsha!,eval!" ∧
+    modelCmds exCfg (.acq 0 0) false true (some 0) .nilNoErr = "-" ∧
+    modelCmds exCfg (.rel 0) false true none .nilNoErr = "evalsha" := by decide
 
 end GoZero.C19
